@@ -239,9 +239,19 @@ class UnitScopeMachine(Machine):
 
     def _fresh(self, rng, n):
         used = set(self.open_symbols())
-        cands = [c for c in self.pool if c not in used]
+        # look-alikes of prefixed forms of earlier custom units ('kqux' after a scope that had
+        # 'qux' with prefix k has ended): legal whenever no open symbol is a suffix of them
+        alike = [p + c for c in self.pool[:8] for p in ("k", "M", "m")]
+        cands = [c for c in self.pool + alike if c not in used
+                 and not any(c.endswith(o) or o.endswith(c) for o in used)]
         rng.shuffle(cands)
-        return cands[:n]
+        out = []
+        for c in cands:
+            if not any(c.endswith(o) or o.endswith(c) for o in out):
+                out.append(c)
+            if len(out) >= n:
+                break
+        return out
 
     def _spec(self, rng, sym):
         dim = rng.choice(list(DIMS))
@@ -649,6 +659,19 @@ class UnitScopeMachine(Machine):
                     signature="C09/leak/failed_open/" + (op["bad"]["kind"] if op.get("bad")
                                                          else "unplanned"))
             self._check_open_state("after_failed_open")
+            opened = list(self.open_symbols())
+            syms = [u["sym"] for u in spec]
+            related = any(a != b and (a.endswith(b) or b.endswith(a))
+                          for a in syms for b in opened + syms)
+            if not op.get("bad") and not related and not any(
+                    u["sym"] in {k for k, _ in pre["standard"]} for u in spec):
+                # nothing was wrong with this registration: fresh symbols, complete
+                # definitions - its units have to be usable inside its scope
+                raise Violation("valid_scope_refused",
+                                {"units": [[u["sym"], u.get("prefixes"), u.get("form")] for u in spec],
+                                 "open": sorted(self.open_symbols()),
+                                 "error": [type(e).__name__, repr(e.args)[:200]]},
+                                signature="C09/usable_inside/refused")
             return "open_failed:" + type(e).__name__, len(self.stack)
         if op.get("bad"):
             self.stats.fault("open_" + op["bad"]["kind"], False)
@@ -690,6 +713,8 @@ class UnitScopeMachine(Machine):
         # not registered by any open scope: must be unknown
         if sym not in self.pool:
             return "skip", None      # clashing symbols are real units outside
+        if any(o.endswith(sym) or (prefix + sym).endswith(o) for o in self.open_symbols()):
+            return "skip", None      # an open look-alike ('kqux') reads the same text
         try:
             q = Quantity(1, prefix + sym)
         except Exception as e:
